@@ -2,6 +2,7 @@ import OpusModel.SilkParams.Fix
 import OpusModel.SilkParams.Nlsf
 import OpusModel.SilkParams.Lpc
 import OpusModel.SilkParams.Gains
+import OpusModel.SilkParams.PitchEnc
 /-
   OpusModel.SilkParams — executable model of the SILK side-information dequantisers
   (property C18).  The parts live in `OpusModel/SilkParams/`:
